@@ -23,6 +23,12 @@ PROP = {
                 {"name": "TestVerifC06Step", "quick": 10000, "thorough": 1600000, "shards": {"thorough": 16}, "salt": 1},
             ],
         },
+        {
+            "bin": "mirrorsim", "pkg": "tm/tmengine/internal/tmmirror", "inject": [("mirrorsim", "tm/tmengine/internal/tmmirror")],
+            "tests": [
+                {"name": "TestVerifC06MirrorMinority", "quick": 800, "thorough": 120000, "shards": {"thorough": 16}, "salt": 2},
+            ],
+        },
     ],
 }
 CLAIM = {
